@@ -9,6 +9,7 @@ import Lemmas.Alter.Raises
 import Lemmas.Alter.PgIdentity
 import Lemmas.Alter.Address
 import Lemmas.Alter.Constraints
+import Lemmas.Alter.Succeeds
 /-!
 # C13 — alter_column changes only what it was asked to change, on every dialect
 
@@ -310,6 +311,24 @@ example : constraintOk constraintWitness
 /-- ... and accepts the drop when the type does change -/
 example : constraintOk { constraintWitness with type_ := some ⟨"INTEGER", false, none⟩ }
     (alterColumn .oracle { constraintWitness with type_ := some ⟨"INTEGER", false, none⟩ }).stmts = true := by decide
+
+/-! ## no spurious refusal -/
+
+/-- **Expressible requests do not raise.** `mustSucceed d r` (Spec) is a sufficient condition for
+"the dialect can express every requested change and was told what it documents as required";
+for such a request `alter_column` completes — so with `exact_partial` / `exact_postgresql_identity`
+the requested attributes are actually reached, not merely "reached or raised". -/
+theorem no_spurious_refusal (d : Dialect) (r : Req) (h : mustSucceed d r = true) :
+    (alterColumn d r).err = none :=
+  succeeds d r h
+
+/-- non-vacuity: the sample request is expressible on every dialect that is given the existing
+type; dropping a stated identity is expressible on PostgreSQL and not on MSSQL -/
+example : mustSucceed .mysql sampleReq = true ∧ mustSucceed .mssql sampleReq = true ∧
+    mustSucceed .postgresql sampleReq = true := by decide
+example : mustSucceed .postgresql { sampleReq with serverDefault := .drop, exDefault := .set (.identity false none) } = true ∧
+    mustSucceed .mssql { sampleReq with serverDefault := .drop, exDefault := .set (.identity false none) } = false := by
+  decide
 
 /-! ## dialects that cannot express a requested change raise -/
 
